@@ -230,6 +230,21 @@ func ProgWide() *Schema {
 	return &Schema{ID: "wide", Msgs: []*Message{root}, Root: root}
 }
 
+// ProgHigh: a recursive message whose message-typed, repeated and map fields have numbers on both sides of the
+// machine-word edges (63/64, 255/256), so that an inner container can be directly followed on the wire by the
+// enclosing message's field of the same number.
+//
+//	RootH { int32 lo=1; NodeH n=2; }
+//	NodeH { int32 v=1; string s=2; NodeH m63=63; NodeH m64=64; repeated NodeH kids=70; NodeH m255=255; map<string,NodeH> km=300; }
+func ProgHigh() *Schema {
+	node := &Message{Name: "NodeH"}
+	root := &Message{Name: "RootH"}
+	node.Add(fld("v", 1, KInt32)).Add(fld("s", 2, KString)).Add(fld("m63", 63, KMessage).msg(node)).Add(fld("m64", 64, KMessage).msg(node)).
+		Add(rfld("kids", 70, KMessage).msg(node)).Add(fld("m255", 255, KMessage).msg(node)).Add(mfld("km", 300, KString, KMessage).msg(node))
+	root.Add(fld("lo", 1, KInt32)).Add(fld("n", 2, KMessage).msg(node))
+	return &Schema{ID: "high", Msgs: []*Message{node, root}, Root: root}
+}
+
 // ---------- message builders
 
 // Named value for enumeration.
